@@ -276,10 +276,16 @@ impl Clock {
 
 	pub(crate) fn on_start_processing(&mut self) {
 		read_commands_into_parameters!(self, speed);
+		// `ClockHandle::stop` writes the ticking command, then the reset command.
+		// Reading them in the opposite order means a reset is never seen without
+		// the pause written before it: otherwise a stop that lands between the
+		// two reads resets the clock while it keeps ticking for this callback,
+		// and the pause that follows leaves it stopped at a non-zero time.
+		let reset = self.command_readers.reset.read().is_some();
 		if let Some(ticking) = self.command_readers.set_ticking.read() {
 			self.set_ticking(ticking);
 		}
-		if self.command_readers.reset.read().is_some() {
+		if reset {
 			self.reset();
 		}
 		self.update_shared();
